@@ -3,10 +3,10 @@
    C08/NumFloatProofs.v and followed by Print Assumptions.
    Models: itoa_int / itoa_uint / fast_atoi (NumInt.v), modp_dtoa / fast_atof (NumFloat.v);
    specification: canon_dec, c08_int_ok, c08_atoi_ok, c08_float_ok ... (Spec_C08.v). *)
-From Coq Require Import ZArith List Bool.
+From Coq Require Import ZArith List Bool Reals.
 From Flocq Require Import IEEE754.BinarySingleNaN.
 From F8 Require Import C08.NumInt C08.NumFloat C08.Spec_C08 C08.NumIntProofs C08.NumFloatProofs
-  C08.NumFloatShapeProofs.
+  C08.NumFloatShapeProofs C08.NumFloatRoundProofs.
 Import ListNotations.
 Local Open Scope Z_scope.
 
@@ -178,6 +178,31 @@ Theorem c08_dtoa_text_within_threshold : forall v p0, is_finite v = true ->
   exists t, modp_dtoa v p0 = DT_text t /\ c08_shape_ok (clamp_prec p0) t = true.
 Proof. exact dtoa_total_lemma. Qed.
 Print Assumptions c08_dtoa_text_within_threshold.
+
+(* When is the rounding right?  Precision 1..9: whenever the tie test of the rounding stage is false
+   (the computed diff = tmp - frac is not exactly 0.5), whole * 10^p + frac -- the number the digit
+   loops then print -- is THE integer nearest to |v| * 10^p (distance < 1/2): the rendering is
+   correctly rounded.  Both rendering defects (roll-over, double rounding) need diff == 0.5; the
+   finding classifiers are the negation of this hypothesis plus the narrower sub-condition. *)
+Theorem c08_dtoa_nearest_partial : forall v p, is_finite v = true -> 1 <= p <= 9 ->
+  match dtoa_stage v p with
+  | None => True
+  | Some st => ds_whole0 st <= 2147483647 -> feq (ds_diff st) fhalf = false ->
+               (Rabs (B2R (ds_value st) * IZR (10 ^ p) - IZR (ds_whole st * 10 ^ p + ds_frac st)) < / 2)%R
+  end.
+Proof. exact stage_nearest_lemma. Qed.
+Print Assumptions c08_dtoa_nearest_partial.
+
+(* Precision 0 is ALWAYS right inside the threshold: the text is [-]N where N is the integer
+   nearest to |v|, and in case of a tie the even one (round half to even, like printf). *)
+Theorem c08_dtoa_prec0_correct : forall v, is_finite v = true ->
+  flt thres_max (if flt v fzero then fneg v else v) = false ->
+  exists N, modp_dtoa v 0 = DT_text ((if flt v fzero then [45] else []) ++ dec_digits dec_fuel N) /\
+            0 <= N /\
+            (Rabs (B2R (if flt v fzero then fneg v else v) - IZR N) <= / 2)%R /\
+            ((Rabs (B2R (if flt v fzero then fneg v else v) - IZR N) = / 2)%R -> Z.even N = true).
+Proof. exact dtoa_p0_lemma. Qed.
+Print Assumptions c08_dtoa_prec0_correct.
 
 (* Non-vacuity: INT_MIN meets the hypotheses of the integer theorems and of the integral-double
    theorem (as -2147483647 - 1 is outside the latter, its neighbour is used there). *)
